@@ -262,14 +262,6 @@ def stepThread (r : RState) (idx tid : Nat) (keys : List Nat) : List RState :=
           | none => []
           | some r' => (oracles op tid r' keys).flatMap (fun orc => run r' txt (start ⟨op, orc⟩) rest)
 
-/-- run thread `idx` until its current operation list is exhausted (sequential phases) -/
-partial def runSeq (r : RState) (idx tid : Nat) (keys : List Nat) : List RState :=
-  match r.ths[idx]? with
-  | none => []
-  | some th =>
-    if th.cur.isNone && th.ops.isEmpty then [r]
-    else (stepThread r idx tid keys).flatMap (fun r' => runSeq r' idx tid keys)
-
 def stateKey (r : RState) : String :=
   toString (repr (r.d, r.ths.map (fun th => (th.ops, th.cur)), r.out.length))
 
@@ -277,6 +269,24 @@ def dedup (rs : List RState) : List RState :=
   (rs.foldl (fun (acc : List String × List RState) r =>
     let k := stateKey r
     if acc.1.contains k then acc else (k :: acc.1, r :: acc.2)) ([], [])).2.reverse
+
+/-- run thread `idx` until its current operation list is exhausted (sequential phases). Breadth first with the states seen
+    so far removed: a sweep may be offered a key again whose entry it left alone, which leads back to a state seen before -/
+partial def runSeq (r : RState) (idx tid : Nat) (keys : List Nat) : List RState :=
+  let finished (r : RState) : Bool := match r.ths[idx]? with
+    | none => true
+    | some th => th.cur.isNone && th.ops.isEmpty
+  let rec go (front : List RState) (seen : List String) (done : List RState) : List RState :=
+    match front with
+    | [] => done.reverse
+    | _ =>
+      let fin := front.filter finished
+      let next := (dedup ((front.filter (fun r => !finished r)).flatMap (fun r => stepThread r idx tid keys))).filter
+        (fun r => !seen.contains (stateKey r))
+      go next (next.map stateKey ++ seen) (fin.reverse ++ done)
+  match r.ths[idx]? with
+  | none => []
+  | some _ => go [r] [stateKey r] []
 
 def keysOfProg (p : Prog) : List Nat :=
   let all := p.pre ++ p.post ++ p.threads.flatten
